@@ -16,7 +16,7 @@ import numpy as np
 from symnp import SymArray
 from .common import And, Case, Implies, Not, Or, SB, SR, all_of, clone_config, close, exact, inject, isnan, ite, ssum, vals
 from . import ens
-from .c01 import sort_filter
+from .c01 import cvar_filter, sort_filter
 
 ZERO = SR(Fraction(0))
 
@@ -25,7 +25,7 @@ class RequestCase(Case):
     family = "requests"
 
     def __init__(self, cid, *, mode, R, P=2, K=1, C=0, B=1, N=2, zero=(), var_scaler=False, obj_scaler=False,
-                 con_scaler=False, filters=(), obj_filt=None, memo=False, nan_row=None, readonly=False, rounds=1):
+                 con_scaler=False, filters=(), obj_filt=None, memo=False, nan_row=None, readonly=False, rounds=1, con_filt=None):
         """mode: functions | both | split (functions, then a gradient-only request at the same point)"""
         self.id = cid
         self.mode, self.R, self.P, self.K, self.C, self.B, self.N = mode, R, P, K, C, B, N
@@ -39,7 +39,7 @@ class RequestCase(Case):
         rng = np.random.default_rng([R, P, N, 3])
         self.design = np.round(rng.uniform(-1, 1, (R, P, N)) * 64) / 64
         self.cfg0 = ens.ensemble_config(N=N, R=R, P=P, K=K, C=C, rmin=1, pmin=1, filters=filters, obj_filt=obj_filt,
-                                        x0=[0.25] * N)
+                                        con_filt=con_filt, x0=[0.25] * N)
         self.ncalls = {"functions": 1, "both": 1, "split": 2 * rounds}[mode] * (2 if memo else 1)
 
     def describe(self):
@@ -257,6 +257,8 @@ class RequestCase(Case):
                             for k in range(K):
                                 props.append((f"{dom}{ri}.b{bidx}.objective[{r},{k}].is_value_of_labelled_row",
                                               Or(anynan, close(o[r, k], so_(k, row[k])))))
+                            # a failed row is reported as failed, never as a number the evaluator did not return
+                            props.append((f"{dom}{ri}.b{bidx}.row[{r}].nan_fails_whole_row", Implies(anynan, all_of(isnan(o[r, k]) for k in range(K)))))
                             if cc is not None:
                                 for k in range(C):
                                     props.append((f"{dom}{ri}.b{bidx}.constraint[{r},{k}].is_value_of_labelled_row",
@@ -379,6 +381,9 @@ def build_cases(tier):
     add(mode="split", R=3, P=1, K=1, filters=(sort_filter(0, 1),), obj_filt=(0,), rounds=2)
     add(mode="functions", R=3, K=1, zero=(1,), filters=(sort_filter(0, 1),), obj_filt=(0,))   # a filter next to a configured zero weight
     add(mode="both", R=3, P=1, K=1, zero=(1,), filters=(sort_filter(0, 1),), obj_filt=(0,))        # the same through a combined request
+    add(mode="functions", R=3, K=1, C=1, zero=(1,), filters=(sort_filter(0, 1, kind="constraint"),), con_filt=(0,))   # a filter assigned to a constraint only
+    add(mode="split", R=3, P=1, K=1, zero=(1,), filters=(cvar_filter(0.5),), obj_filt=(0,))          # CVaR weights do not follow the configured ones
+    add(mode="split", R=2, P=1, K=2, nan_row=(0, 1, 0))                                              # the cached function result keeps its failure
     add(mode="split", R=2, P=1, K=1, C=1, zero=(1,), filters=(sort_filter(0, 1),), obj_filt=(0,))   # objective filter only, constraints keep the configured weights
     add(mode="functions", R=2, K=1, C=1, nan_row=(0, 1, 1))
     add(mode="functions", R=2, K=1, C=1, nan_row=(0, 1, 0))
